@@ -1,36 +1,13 @@
-"""findings.py — trigger predicates of the open known findings (known_findings.json).
+"""findings.py — trigger predicates of known findings listed in known_findings.json under their old names.
 
 A failing case is attributed to an open finding only if its predicate holds for the *case*
 (input / history), and — rule (iii) of DESIGN.md §2.5 — removing the triggering feature from the
-case makes the failure disappear; anything else stays a violation."""
-import re
-
-
-def _strip_comments(text):
-    out = []
-    for l in text.split("\n"):
-        if re.match(r"^ {0,4}[cC]( |$)", l) and out and out[0] is not None and len(out) > 1:
-            continue
-        i = l.find("$")
-        out.append(l if i < 0 else l[:i].rstrip())
-    return "\n".join(out)
+case makes the failure disappear; anything else stays a violation.
+The predicates of the open C10 findings are in findings_C10.py."""
 
 
 def comment_on_overlong_line(case, params):
-    """F-C10-comment-wrap: a '$' or C comment sits on a line that must be wrapped."""
-    import props.C10 as C10
-    c = case.get("case")
-    if not c or "text" not in c or case.get("kind") != "regimes-differ":
-        return False
-    if "$" not in c["text"]:
-        return False
-    lines = c["text"].split("\n")
-    # keep the title line untouched (a '$' there is not a comment)
-    head = 1
-    if lines and lines[0].upper().startswith("MESSAGE:"):
-        while head < len(lines) and lines[head - 1].strip():
-            head += 1
-        head += 1
-    stripped = "\n".join(lines[:head]) + "\n" + _strip_comments("\n".join(lines[head:]))
-    c2 = dict(c, text=stripped)
-    return C10.check_problem(c2) is None
+    """F-C10-comment-wrap was repaired by /repo commit 5ca937a (findings/C10.fixed.json).  Nothing is attributed
+    to it any more: if a '$' or C comment on a wrapped line is written as data again, that is a violation
+    (regression case corpus/C10/fixed-comment-wrap.json)."""
+    return False
